@@ -361,6 +361,26 @@ def opRunDirs (j : Json) : Json :=
   let out := runs.foldl step ([], [])
   Json.mkObj [("runs", Json.arr out.2.toArray)]
 
+/-! op `archive`: member results (as data) and an optional abort point → the modelled run
+    directory: which files each member directory holds, which have fingerprints, the manifests -/
+def opArchive (j : Json) : Json :=
+  let ms := (getArr j "members").toList.map (fun m =>
+    ({ identity := getStr m "identity", vars := 0, errors := List.replicate (getNat m "nerrors") 0,
+       printouts := (getArr m "printouts").toList.map (fun x => match x with | .str s => s | _ => ""),
+       lines := (getArr m "lines").toList.map recOfJson, unmatched := (getArr m "unmatched").toList.map recOfJson,
+       valid := getBool m "valid" true, completed := getBool m "completed" true } : Archive.MemberResult Nat Nat))
+  let abortAt := optNat j "abort_at"
+  let out := Archive.serialRun (fun (_ : Archive.Content Nat Nat) => (0 : Nat)) ms abortAt
+  let man := out.1.manifest.getD Archive.startManifest
+  Json.mkObj [("raised", toJson out.2),
+    ("manifest", Json.mkObj [("status", toJson man.status),
+      ("all_valid", match man.allValid with | some b => toJson b | none => Json.null),
+      ("all_completed", match man.allCompleted with | some b => toJson b | none => Json.null),
+      ("error_count", match man.errorCount with | some b => toJson b | none => Json.null)]),
+    ("members", Json.arr (out.1.members.map (fun m => Json.mkObj [("identity", toJson m.1),
+      ("files", toJson ((m.2.files.map (·.1)).toArray.qsort (· < ·)).toList),
+      ("fingerprinted", toJson ((m.2.manifest.map (fun mm => mm.fingerprints.map (·.1))).getD []))])).toArray)]
+
 def handle (line : String) : Json :=
   match Json.parse line with
   | .error e => Json.mkObj [("error", toJson s!"bad-json: {e}")]
@@ -376,6 +396,7 @@ def handle (line : String) : Json :=
     else if op == "paths" then opPaths j
     else if op == "byline" then opByLine j
     else if op == "rundirs" then opRunDirs j
+    else if op == "archive" then opArchive j
     else Json.mkObj [("error", toJson s!"bad-op: {op}")]
 
 partial def loop (h : IO.FS.Stream) (out : IO.FS.Stream) : IO Unit := do
